@@ -41,7 +41,14 @@ class GlyphMapping:
         f = StringIO()
         writer = csv.writer(f, lineterminator="")
         writer.writerow(row)
-        return f.getvalue()
+        line = f.getvalue()
+        if any(str(v).startswith(" ") for v in row):
+            # load_from skips blanks after a delimiter; a leading blank survives only quoted
+            f = StringIO()
+            writer = csv.writer(f, lineterminator="", quoting=csv.QUOTE_ALL)
+            writer.writerow(row)
+            line = f.getvalue()
+        return line
 
 
 def load_from(file) -> Tuple[GlyphMapping]:
